@@ -438,11 +438,13 @@ class Tracer(object):
                 ops.append('%d:%s:%d:%d' % (self.info.cid.get(cls.__name__, 999), fmt_list([dec_val(x) for x in ident]),
                                             op.type, 1 if op.processed else 0))
             vobjs = []
-            for (vcls, vid) in u.version_objs.keys():
+            for vkey in u.version_objs.keys():
                 try:
+                    (vcls, vid) = vkey
                     pc = m.parent_class_map[vcls].__name__
-                except KeyError:
-                    pc = '?'
-                vobjs.append('%d:%s:%d' % (self.info.cid.get(pc, 999), fmt_list([dec_val(x) for x in vid[:-1]]), vid[-1]))
+                    vobjs.append('%d:%s:%d' % (self.info.cid.get(pc, 999), fmt_list([dec_val(x) for x in vid[:-1]]), vid[-1]))
+                except Exception:
+                    # not a (version class, identity + transaction id) key: report it verbatim (the model has no such entry)
+                    vobjs.append('unexpected:%s' % repr(vkey)[:80].replace(' ', '_'))
             d.update({'cur': cur, 'ops': ops, 'vobjs': sorted(vobjs), 'pending': len(u.pending_statements)})
         return d
